@@ -80,6 +80,47 @@ def check_constructed(aname, bname, tA, tB, alpha, scale, acc):
                       detail='%d reported in total, %d near the constructed crossing' % (len(r[1]), len(hits)))
 
 
+AXIS_TILTS = [0.0, 1e-14, 1e-12, 1e-10, 1e-8, 1e-7, 1e-6, 1e-5, 2.0 ** -12, 1e-3]
+AXIS_ARCS = {'half_circle_100': (-100j, 100 + 100j, 0, False, True, 100j),
+             'circle_small_ccw': AB.ARCS['A_circle_small_ccw'], 'ellipse_3to1': AB.ARCS['A_ellipse_3to1'],
+             'circle_large_cw': AB.ARCS['A_circle_large_cw']}
+
+
+def check_axis_lines(acc, only=None):
+    """unrotated arcs crossed by lines that are vertical / horizontal only UP TO A TILT (0 .. 1e-3 rad):
+    the closed-form branch solves for x and for y separately, and a candidate (x_i, y_j) with mismatched
+    roots passes tolerant membership tests exactly when the two x (or y) roots nearly coincide"""
+    for aname, spec in AXIS_ARCS.items():
+        A = Arc(*spec)
+        size = seg_size(A)
+        for tA in (0.2, 0.37, 0.6, 0.85):
+            P = A.point(tA)
+            for axis in ('vertical', 'horizontal'):
+                for tilt in AXIS_TILTS:
+                    for sgn in (1, -1):
+                        d = complex(sgn * tilt, 1.0) if axis == 'vertical' else complex(1.0, sgn * tilt)
+                        L = Line(P - 0.37 * size * d, P + 0.63 * size * d)
+                        case = {'what': 'axis_lines', 'arc': aname, 'tA': tA, 'axis': axis, 'tilt': sgn * tilt}
+                        if only and case != only:
+                            continue
+                        # transversal?  (a tangent vertical line at the extreme point is not in the property)
+                        tan = isect.tangent(A, tA)
+                        if abs(tan.real * d.imag - tan.imag * d.real) / abs(d) < 0.1:
+                            acc.filt('axis_line_nearly_tangent')
+                            continue
+                        acc.case(case, cls='axis_lines/%s' % axis)
+                        for order, X, Y, tx, ty in (('AL', A, L, tA, 0.37), ('LA', L, A, 0.37, tA)):
+                            r = outcome(lambda: X.intersect(Y))
+                            sig = {'pair': order, 'family': 'axis_lines', 'axis': axis, 'tilted': tilt != 0}
+                            if r[0] != 'ok':
+                                acc.violation('intersect_raises', dict(sig, exc=r[1]), dict(case, order=order), observed=r)
+                                continue
+                            hits = [(float(a), float(b)) for a, b in r[1] if abs(a - tx) <= 1e-4 and abs(b - ty) <= 1e-4]
+                            if len(hits) != 1:
+                                acc.violation('crossing_missed' if not hits else 'crossing_reported_more_than_once', sig, dict(case, order=order),
+                                              observed=[[float(a), float(b)] for a, b in r[1]], expected='one pair within 1e-4 of (%r, %r)' % (tx, ty))
+
+
 def check_circles(R, bscale, tA, tB, alpha, acc):
     """two circular, unrotated arcs with very different radii crossing transversally"""
     A = Arc(0j, complex(R, R), 0, 0, 1, complex(40.0, 0.0))
@@ -205,9 +246,10 @@ def shards(tier, seed):
     out += [{'what': 'exact', 'B': b, 'rot': r} for b in bez for r in (0, 37)]
     out.append({'what': 'paths'})
     out.append({'what': 'circles'})
+    out.append({'what': 'axis_lines'})
     out += [{'what': 'grid', 'size': list(sz), 'kinds': k, 'long': lg}
             for sz in (isect.GRID_SIZES_QUICK if tier == 'quick' else isect.GRID_SIZES_THOROUGH)
-            for k in (('L',) if sz[0] * sz[1] > 1100 else ('L', 'LQC')) for lg in (False, True, 'over_zigzag')]
+            for k in (('L',) if sz[0] * sz[1] > 1100 else ('L', 'LQC')) for lg in (False, True, 'over_zigzag', 'far_fine')]
     return out
 
 
@@ -218,6 +260,12 @@ def run_shard(desc, tier, seed):
         for sc in tp['scales']:
             for tA, tB, al in itertools.product(tp['tA'], tp['tB'], tp['alpha']):
                 check_constructed(desc['A'], desc['B'], tA, tB, al, sc, acc)
+        # arcs: also crossings near either END of the arc (angle ranges that wrap past +-360 degrees are
+        # traversed in their last part only)
+        if desc['A'][0] == 'A' or desc['B'][0] == 'A':
+            for tA, tB in ((0.93, 0.45), (0.06, 0.5), (0.45, 0.93), (0.5, 0.06), (0.93, 0.93)):
+                for al in tp['alpha'][:2]:
+                    check_constructed(desc['A'], desc['B'], tA, tB, al, 1.0, acc)
         # pairs solved in closed form / by polynomial roots (a Line with a Line or a Bezier) have no
         # absolute tolerance to tune: they must work at any drawing scale
         ka, kb = desc['A'][0], desc['B'][0]
@@ -232,6 +280,8 @@ def run_shard(desc, tier, seed):
                     check_circles(R, bs, tA, tB, al, acc)
     elif desc['what'] == 'exact':
         check_exact(desc['B'], desc['rot'], tp['lat'], acc)
+    elif desc['what'] == 'axis_lines':
+        check_axis_lines(acc)
     elif desc['what'] == 'grid':
         isect.check_grid(desc['size'][0], desc['size'][1], desc['kinds'], desc['long'], acc, ('count',), 'C12')
     else:
@@ -241,7 +291,7 @@ def run_shard(desc, tier, seed):
 
 def expected_classes(tier):
     out = ['constructed/%s%s' % (a, b) for a in 'LQCA' for b in 'LQCA']
-    out += ['exact/L/count1', 'exact/Q/count1', 'exact/Q/count2', 'exact/C/count1', 'exact/C/count2', 'exact/C/count3', 'exact/C/count0', 'circles/ratio_gt1e3', 'circles/ratio_le1e3', 'grid/lt256', 'grid/ge256', 'grid/ge4096']
+    out += ['exact/L/count1', 'exact/Q/count1', 'exact/Q/count2', 'exact/C/count1', 'exact/C/count2', 'exact/C/count3', 'exact/C/count0', 'circles/ratio_gt1e3', 'circles/ratio_le1e3', 'grid/lt256', 'grid/ge256', 'grid/ge4096', 'axis_lines/vertical', 'axis_lines/horizontal']
     return out
 
 
@@ -254,7 +304,11 @@ def space(tier, seed):
 
 def replay(case):
     acc = core.ReplayAcc()
-    if case['what'] == 'grid':
+    if case['what'] == 'axis_lines':
+        c = {k: v for k, v in case.items() if k != 'order'}
+        check_axis_lines(acc, only=c)
+        acc.vlist = [v for v in acc.vlist if v['case'].get('order') == case.get('order')]
+    elif case['what'] == 'grid':
         isect.check_grid(case['n_comb'], case['n_rungs'], case['kinds'], case['long_stroke'], acc, ('count',), 'C12')
         acc.vlist = [v for v in acc.vlist if v['case'].get('order') == case.get('order')]
     elif case['what'] == 'circles':
